@@ -412,5 +412,6 @@ Lemma source_synchronisation_facts :
   duplex_response_written_only_in_make_request = true /\
   duplex_response_read_only_after_ready = true /\
   duplex_ready_closed_by_defer_in_make_request = true /\
-  duplex_goroutine_started_through_once = true.
+  duplex_goroutine_started_through_once = true /\
+  duplex_other_channels_closed_through_once = true.
 Proof. repeat split; reflexivity. Qed.
